@@ -1,4 +1,5 @@
 import Gtree.Lemmas.SourceConfig
+import Gtree.Lemmas.HeapMkdir
 import Gtree.Lemmas.HeapGrower
 import Gtree.Lemmas.SourceRefines
 import Gtree.Lemmas.Validate
@@ -249,4 +250,24 @@ theorem C07_grower_validates_in_the_source (dg : SrcH.defaultGrowerSimple) (ts :
                 else none) := by
   obtain ⟨h', hrun, _⟩ := SrcH.grow_forest dg ts h rs fuel hr hnd hf
   exact ⟨h', hrun⟩
+end Gtree
+
+namespace Gtree
+/-- Tie to the source, pointer code and operating-system calls included (heap mode of /verif/translate,
+    `Generated/SourceHeap.lean`, regenerated on every run): the MKDIRER of simple_tree_mkdirer.go — `mkdir`,
+    `isExistRoot`, the recursion `makeDirectoriesAndFiles`, `mkdirAll`, `mkfile` — with `fileConsiderer.isFile`,
+    translated statement by statement over an explicit heap and the file-system model (`os.Stat`, `os.MkdirAll`,
+    `os.Create` are the model's operations).  For every heap that holds a forest, every file system, target,
+    extension list, and every fuel above the forest's size, the translated `mkdir` is the model's `mkdirRoots` on
+    what is read from the nodes: nothing is touched and `ErrExistPath` is returned when some root exists already
+    (any outcome of Stat other than "does not exist"); otherwise for every node in pre-order a childless node whose
+    name ends with an extension gets `MkdirAll(parent)` then `Create`, any other childless node `MkdirAll`, a node
+    with children nothing itself; the first refusal ends the run and is returned.  The theorems about `mkNodes` /
+    `mkdirRoots` (exactness, confinement, preservation) are therefore theorems about this code. -/
+theorem C07_mkdirer_is_the_source (dm : SrcH.defaultMkdirerSimple) (h : SrcH.Heap) (ts : List T) (fs : FS)
+    (rs : List Go.Ptr) (fuel : Nat) (hr : SrcH.ReprRoots h ts rs) (hf : sizeList ts ≤ fuel) :
+    SrcH.defaultMkdirerSimple.mkdir fuel h fs dm rs =
+      some ((mkdirRoots fs dm.targetDir dm.fileConsiderer.extensions (SrcH.rootVisits h ts rs)).1,
+            SrcH.mkErrSrc (mkdirRoots fs dm.targetDir dm.fileConsiderer.extensions (SrcH.rootVisits h ts rs)).2) :=
+  SrcH.mkdir_heap dm h ts fs rs fuel hr hf
 end Gtree
